@@ -11,6 +11,7 @@
 (*             clock) - the harness watchdog fired                         *)
 (*   task-ended  the endpoint's task returned although it was not shut     *)
 (*             down                                                        *)
+(*   stalled   a READ repeated every 400 ms for 3.6 s is not answered       *)
 (*   no-serve  after the stimulus a link status request is not answered    *)
 (*             (outstation), a well-formed READ with a fresh sequence      *)
 (*             number is not answered (outstation), a user request is not  *)
@@ -25,7 +26,7 @@ EXTENDS Naturals, Sequences, FiniteSets, TLC
 MonInit == [viol |-> <<>>, sc |-> "", seen |-> {}, n |-> 0]
 V(m, reason, l, ctx) ==
     IF <<m.sc, reason>> \in m.seen THEN m
-    ELSE [m EXCEPT !.viol = Append(@, [prop |-> "C01", reason |-> reason, line |-> l, sc |-> m.sc, ctx |-> ctx]),
+    ELSE [m EXCEPT !.viol = IF Len(@) >= 300 THEN @ ELSE Append(@, [prop |-> "C01", reason |-> reason, line |-> l, sc |-> m.sc, ctx |-> ctx]),
                    !.seen = @ \cup {<<m.sc, reason>>}]
 
 MonStep(m, e, l) ==
@@ -38,8 +39,10 @@ MonStep(m, e, l) ==
                 THEN V(m3, "no-serve", l, "link status request not answered") ELSE m3
         m5 == IF e.probe = "read" /\ ~(\E i \in 1..Len(e.tx) : e.tx[i].fc = 129 /\ e.tx[i].seq = e.rxseq)
                 THEN V(m4, "no-serve", l, "well-formed READ not answered") ELSE m4
+        m5b == IF e.probe = "busy" /\ ~(\E i \in 1..Len(e.tx) : e.tx[i].fc = 129 /\ e.tx[i].seq = e.rxseq)
+                THEN V(m5, "stalled", l, "READ not answered while the peer keeps repeating it (3.6 s)") ELSE m5
         m6 == IF e.probe = "mprobe" /\ ~(\E i \in 1..Len(e.tx) : e.tx[i].fc = 1)
-                THEN V(m5, "no-serve", l, "user request not transmitted") ELSE m5
+                THEN V(m5b, "no-serve", l, "user request not transmitted") ELSE m5b
         m7 == IF e.probe = "mprobe" /\ ~(\E i \in 1..Len(e.done) : e.done[i] = "ok")
                 THEN V(m6, "no-serve", l, "user request not completed by its answer") ELSE m6
         \* (a panic also closes the connection: reported once, as the panic)
